@@ -118,26 +118,32 @@ where
 
     // Note on `let _ = <response channel>.send(..)` below and in `handle_packet`: the send fails
     // only if the caller dropped the future of the operation, which must not end `run`.
+    // Returns `true` once the user's DISCONNECT has been written, meaning `run` must return.
     async fn handle_message(
         tx: &mut TxPacketStream<TxStreamT>,
         connection: &mut Connection,
         session: &mut Session,
         msg: ContextMessage,
-    ) -> Result<(), MqttError> {
+    ) -> Result<bool, MqttError> {
         match msg {
             ContextMessage::FireAndForget(msg) => {
                 if let Err(err) = Self::validate_packet_size(connection, msg.packet.as_ref()) {
                     let _ = msg.response_channel.send(Err(err));
-                    return Ok(());
+                    return Ok(false);
                 }
+
+                let is_disconnect = msg.packet.first().unwrap() >> 4 == DisconnectTx::PACKET_ID;
 
                 tx.write(msg.packet.freeze().as_ref()).await?;
                 let _ = msg.response_channel.send(Ok(()));
+
+                // Nothing may be sent after DISCONNECT: graceful disconnection requested by the user.
+                return Ok(is_disconnect);
             }
             ContextMessage::AwaitAck(mut msg) => {
                 if let Err(err) = Self::validate_packet_size(connection, msg.packet.as_ref()) {
                     let _ = msg.response_channel.send(Err(err));
-                    return Ok(());
+                    return Ok(false);
                 }
 
                 let packet_id = msg.packet.first().unwrap() >> 4; // Extract packet id, being the four MSB bits
@@ -145,7 +151,7 @@ where
                 if packet_id == PublishTx::PACKET_ID {
                     if connection.send_quota == 0 {
                         let _ = msg.response_channel.send(Err(QuotaExceeded.into()));
-                        return Ok(());
+                        return Ok(false);
                     }
 
                     connection.send_quota -= 1;
@@ -181,7 +187,7 @@ where
             ContextMessage::Subscribe(msg) => {
                 if let Err(err) = Self::validate_packet_size(connection, msg.packet.as_ref()) {
                     let _ = msg.response_channel.send(Err(err));
-                    return Ok(());
+                    return Ok(false);
                 }
 
                 session
@@ -195,7 +201,7 @@ where
             }
         }
 
-        Ok(())
+        Ok(false)
     }
 
     async fn ack<'a, ReasonT>(
@@ -218,12 +224,13 @@ where
         Ok(())
     }
 
+    // Returns `true` when the server disconnected gracefully, meaning `run` must return.
     async fn handle_packet(
         tx: &mut TxPacketStream<TxStreamT>,
         connection: &mut Connection,
         session: &mut Session,
         packet: RxPacket,
-    ) -> Result<(), MqttError> {
+    ) -> Result<bool, MqttError> {
         match packet {
             RxPacket::Publish(publish) => {
                 let qos = publish.qos;
@@ -281,7 +288,7 @@ where
             }
             RxPacket::Disconnect(disconnect) => {
                 if disconnect.reason == DisconnectReason::Success {
-                    return Ok(()); // Graceful disconnection.
+                    return Ok(true); // Graceful disconnection.
                 }
 
                 return Err(disconnect.into());
@@ -360,7 +367,7 @@ where
             }
         }
 
-        Ok(())
+        Ok(false)
     }
 
     fn handle_connack(connection: &mut Connection, connack: &ConnackRx) {
@@ -607,11 +614,15 @@ where
             futures::select! {
                 maybe_rx_packet = pck_fut => {
                     let rx_packet = maybe_rx_packet.ok_or(SocketClosed)?;
-                    Self::handle_packet(tx, connection, session, rx_packet?).await?;
+                    if Self::handle_packet(tx, connection, session, rx_packet?).await? {
+                        return Ok(());
+                    }
                     pck_fut = rx.next().fuse();
                 },
                 maybe_msg = msg_fut => {
-                    Self::handle_message(tx, connection, session, maybe_msg.ok_or(HandleClosed)?).await?;
+                    if Self::handle_message(tx, connection, session, maybe_msg.ok_or(HandleClosed)?).await? {
+                        return Ok(());
+                    }
                     msg_fut = message_queue.next();
                 }
             }
